@@ -319,7 +319,9 @@ func tableLayout(context *layoutContext, table_ bo.TableBoxITF, bottomSpace pr.F
 							rowBottomY = v
 						}
 					}
-					row.Height = pr.Max(rowBottomY-row.PositionY, 0)
+					// the cells ending here may all end above this row
+					rowBottomY = pr.Max(rowBottomY, row.PositionY)
+					row.Height = rowBottomY - row.PositionY
 				} else {
 					var m pr.Float
 					for _, rowCell := range endingCells {
